@@ -297,6 +297,10 @@ type Env struct {
 	// SharedNames, if set, is the one names table (a Go map owned by the caller) that
 	// "hint_names_shared" ops of every job pass to ImportNames (C09).
 	SharedNames map[string]string
+	// FlatSaveDir/SaveTag: Save ops write <FlatSaveDir>/<SaveTag>-op<i>.go, so that several
+	// jobs save side by side into one directory (C09); no fault plans apply.
+	FlatSaveDir string
+	SaveTag     string
 	// RenderHook, if set, is told when a render call starts and ends (C09 probe).
 	RenderHook func(in bool)
 }
@@ -570,6 +574,25 @@ func execBody(r *Recipe, env *Env, shared []*jen.Statement) (hist []Outcome) {
 					o.Err = err.Error()
 				}
 			case "save":
+				if env.FlatSaveDir != "" {
+					o.Render = true
+					o.Obj = "file"
+					o.NoFormat = f.NoFormat
+					if env.RenderHook != nil {
+						env.RenderHook(true)
+						defer env.RenderHook(false)
+					}
+					target := filepath.Join(env.FlatSaveDir, fmt.Sprintf("%s-op%d.go", env.SaveTag, i))
+					err := f.Save(target)
+					if b, e := os.ReadFile(target); e == nil {
+						o.Out = b // compared like rendered bytes
+					}
+					if err != nil {
+						o.OK = false
+						o.Err = strings.ReplaceAll(err.Error(), env.FlatSaveDir, "$DIR")
+					}
+					return
+				}
 				if env.Sandbox == "" {
 					o.Kind = "save_skipped"
 					return
